@@ -6,7 +6,10 @@ use serde_json::{Value, json};
 use crate::pool::{Pool, Resp};
 
 pub mod c01;
+pub mod c02;
+pub mod c06;
 pub mod c07;
+pub mod snipbatch;
 pub mod c08;
 pub mod c10;
 pub mod c15;
@@ -16,6 +19,8 @@ pub mod c20;
 pub fn worker(prop: &str, case: &Value) -> Value {
     match prop {
         "C01" => c01::worker(case),
+        "C02" => c02::worker(case),
+        "C06" => c06::worker(case),
         "C07" => c07::worker(case),
         "C08" => c08::worker(case),
         "C10" => c10::worker(case),
@@ -29,6 +34,8 @@ pub fn worker(prop: &str, case: &Value) -> Value {
 pub fn drive(prop: &str, tier: &str) -> i32 {
     match prop {
         "C01" => c01::drive(tier),
+        "C02" => c02::drive(tier),
+        "C06" => c06::drive(tier),
         "C07" => c07::drive(tier),
         "C08" => c08::drive(tier),
         "C10" => c10::drive(tier),
